@@ -561,6 +561,15 @@ func evalModTarget(env *SpecEnv, item string) (cell *Sort, ref *Term, elemT type
 	if strings.HasPrefix(item, "[]") || strings.HasPrefix(item, "*") {
 		return nil, nil, nil, false
 	}
+	// a captured variable of the closure under verification: the cell it lives in
+	if env.fr != nil {
+		for i, fv := range env.fr.fn.FreeVars {
+			if fv.Name() == item && i < len(env.fr.bindings) {
+				T := elemType(fv.Type())
+				return sortOf(T), env.fr.bindings[i], T, true
+			}
+		}
+	}
 	x, err := parseSpecExpr(item)
 	if err != nil {
 		return nil, nil, nil, false
